@@ -60,6 +60,59 @@ def structural(snap, spec):
     return out
 
 
+def gsc_oracle(spec, tree):
+    """the verdict of the configured global stop condition recomputed from its definition on the tree's
+    public state (None for conditions that are not a plain function of it)"""
+    g = spec["gsc"]
+    k = g["kind"]
+    demes = [d for _, d in tree.all_demes]
+    if k == "MetaepochLimit":
+        return tree.metaepoch_count >= g["limit"]
+    if k == "SingularProblemEvalLimitReached":
+        return tree.n_evaluations >= g["limit"]
+    if k == "FitnessEvalLimitReached":
+        nlev = len(spec["levels"])
+        w = {"root": [1.0] + [0.0] * (nlev - 1), "equal": [1.0] * nlev, "list": [1.0, 0.5, 0.25, 0.125][:nlev]}[g["weights"]]
+        return sum(w[d.level] * d.n_evaluations for d in demes) >= g["limit"]
+    if k == "AllStopped":
+        return not any(d.is_active for d in demes)
+    if k == "RootStopped":
+        return not tree.root.is_active
+    return None
+
+
+def gsc_threshold_probe(spec, tree):
+    """for the limit-type conditions: a private copy of the restored condition, with its limit set just
+    above the quantity the definition measures on the tree, must answer False (and True at that quantity) —
+    a condition that carries a running total or remembered demes through the snapshot answers differently"""
+    import copy
+
+    k = spec["gsc"]["kind"]
+    if k not in ("SingularProblemEvalLimitReached", "FitnessEvalLimitReached"):
+        return None
+    demes = [d for _, d in tree.all_demes]
+    if k == "SingularProblemEvalLimitReached":
+        q = float(tree.n_evaluations)
+    else:
+        nlev = len(spec["levels"])
+        w = {"root": [1.0] + [0.0] * (nlev - 1), "equal": [1.0] * nlev, "list": [1.0, 0.5, 0.25, 0.125][:nlev]}[spec["gsc"]["weights"]]
+        q = float(sum(w[d.level] * d.n_evaluations for d in demes))
+    try:
+        g = copy.deepcopy(tree._gsc)
+        if not hasattr(g, "limit"):
+            return None
+        g.limit = q + 0.0625
+        above = bool(g(tree))
+        g2 = copy.deepcopy(tree._gsc)
+        g2.limit = q
+        at = bool(g2(tree))
+    except Exception:  # noqa: BLE001
+        return None
+    if above or not at:
+        return f"{k}: the quantity its definition measures on this tree is {q}; a copy of the condition with limit {q} answers {at}, with limit {q + 0.0625} answers {above}"
+    return None
+
+
 def one_config(spec, sl, kind):
     import pyhms.tree as T
     from pyhms.config import TreeConfig
@@ -127,6 +180,12 @@ def one_config(spec, sl, kind):
                 viol("C19/loaded-summary-differs", f"boundary {k}: summary of the loaded tree differs", k)
             elif bool(loaded._gsc(loaded)) != bool(tree._gsc(tree)):
                 viol("C19/loaded-gsc-differs", f"boundary {k}: stop-condition verdict differs on the loaded tree", k)
+            pr = gsc_threshold_probe(spec, loaded)
+            if pr:
+                viol("C19/loaded-gsc-not-its-definition", f"boundary {k}: restored tree — {pr}", k)
+            want = gsc_oracle(spec, loaded)
+            if want is not None and bool(loaded._gsc(loaded)) != bool(want):
+                viol("C19/loaded-gsc-not-its-definition", f"boundary {k}: on the restored tree {spec['gsc']['kind']} answers {bool(loaded._gsc(loaded))}, its definition on the restored state gives {bool(want)}", k)
             # continuation of the loaded tree (every third boundary): invariants relative to restored counters
             if k % 3 == 1:
                 lrecs = {id(lc.problem): lc.problem for lc in loaded.config.levels}
@@ -145,6 +204,9 @@ def one_config(spec, sl, kind):
                     if loaded._gsc(loaded):
                         break
                     loaded.run_step()
+                    want = gsc_oracle(spec, loaded)
+                    if want is not None and bool(loaded._gsc(loaded)) != bool(want):
+                        viol("C19/loaded-gsc-not-its-definition", f"restored at boundary {k} and run further: {spec['gsc']['kind']} answers {bool(loaded._gsc(loaded))}, its definition on the tree's state gives {bool(want)}", k)
                     s2 = R.snap_tree(loaded, order + [d.id for _, d in loaded.all_demes if d.id not in order])
                     if it == 0 and deterministic:
                         expect_next = (k, s2)
